@@ -1,4 +1,4 @@
-import Toodee.Base.Core
+import Toodee.Base.Mem
 /-
   Impl-model of `TooDee<T>` (src/toodee.rs): state, constructors, indexing, `col`, the `TooDeeOpsMut`
   overrides (`fill`, `swap_rows`, `swap`), `clear`, `swap_dimensions`.  One definition per Rust function.
@@ -22,25 +22,30 @@ def win (t : TD α) : Win := ⟨0, t.data.length⟩
 /-- `TooDee::default()` src/toodee.rs:40-56 -/
 def default : TD α := ⟨[], 0, 0⟩
 
-/-- `TooDee::with_capacity` src/toodee.rs:482-488 (capacity is not part of the observable state) -/
-def withCapacity (_cap : Nat) : TD α := ⟨[], 0, 0⟩
+/-- `TooDee::with_capacity` src/toodee.rs:482-488 (the capacity itself is not part of the observable state) -/
+def withCapacity (capLimit n : Nat) : Res (TD α) :=
+  if !allocOk capLimit n then throw .panic else pure ⟨[], 0, 0⟩
 
 /-- the zero rule as the constructors check it: `if c == 0 || r == 0 { assert_eq!(r, c) }` -/
 def zeroRuleOk (c r : Nat) : Bool := !(c == 0 || r == 0) || (r == c)
 
 /-- `TooDee::new` src/toodee.rs:419-427; `dflt` is `T::default()` -/
-def new (c r : Nat) (dflt : α) : Res (TD α) :=
+def new (capLimit : Nat) (c r : Nat) (dflt : α) : Res (TD α) :=
   if !zeroRuleOk c r then throw .panic
   else match cmul c r with
     | none => throw .panic
-    | some n => pure ⟨List.replicate n dflt, r, c⟩
+    | some n =>
+      -- `Vec::new()` then `resize_with(n, T::default)`
+      if !allocOk capLimit n then throw .panic else pure ⟨List.replicate n dflt, r, c⟩
 
 /-- `TooDee::init` src/toodee.rs:448-460 -/
-def init (c r : Nat) (v : α) : Res (TD α) :=
+def init (capLimit : Nat) (c r : Nat) (v : α) : Res (TD α) :=
   if !zeroRuleOk c r then throw .panic
   else match cmul r c with
     | none => throw .panic
-    | some n => pure ⟨List.replicate n v, r, c⟩
+    | some n =>
+      -- `vec![init_value; len]`
+      if !allocOk capLimit n then throw .panic else pure ⟨List.replicate n v, r, c⟩
 
 /-- `TooDee::from_vec` src/toodee.rs:557-567 (and `from_box`, which delegates) -/
 def fromVec (c r : Nat) (v : List α) : Res (TD α) :=
@@ -106,6 +111,35 @@ def clear (_t : TD α) : TD α := ⟨[], 0, 0⟩
 
 /-- `swap_dimensions` -/
 def swapDimensions (t : TD α) : TD α := { t with numRows := t.numCols, numCols := t.numRows }
+
+/-! ### conversions and derived traits (src/toodee.rs:73, 985-1023) -/
+
+/-- `From<TooDee<T>> for Vec<T>`: `toodee.data` -/
+def intoVec (t : TD α) : List α := t.data
+
+/-- `From<TooDee<T>> for Box<[T]>`: `toodee.data.into_boxed_slice()` -/
+def intoBox (t : TD α) : List α := t.data
+
+/-- `IntoIterator for TooDee<T>`: `self.data.into_iter()` — the items a `vec::IntoIter` will yield, front first -/
+def intoIter (t : TD α) : List α := t.data
+
+/-- `#[derive(Clone)]`: field-wise; `Vec::clone` clones element by element in order (`cl` = `T::clone`) -/
+def clone (cl : α → α) (t : TD α) : TD α := ⟨t.data.map cl, t.numRows, t.numCols⟩
+
+/-- `Vec<T> == Vec<T>` / `[T] == [T]`: equal lengths and element-wise `eqα` (= `T::eq`) -/
+def sliceEq (eqα : α → α → Bool) : List α → List α → Bool
+  | [], [] => true
+  | x :: xs, y :: ys => eqα x y && sliceEq eqα xs ys
+  | _, _ => false
+
+/-- `#[derive(PartialEq)]`: the fields compared in declaration order with `&&` -/
+def eqDerived (eqα : α → α → Bool) (a b : TD α) : Bool :=
+  sliceEq eqα a.data b.data && (a.numRows == b.numRows) && (a.numCols == b.numCols)
+
+/-- `#[derive(Hash)]`: what is fed to the hasher — `Vec<T>::hash` writes the length then each element (`hα` = what `T::hash`
+    writes), then the two dimensions -/
+def hashFeed (hα : α → List Nat) (t : TD α) : List Nat :=
+  t.data.length :: (t.data.flatMap hα ++ [t.numRows, t.numCols])
 
 end TD
 end Toodee
